@@ -496,7 +496,9 @@ func runClose(c CloseCase) (st closeStats, v *Violation) {
 	s.Start()
 	var closeErr error
 	var censusViol *Violation
+	mainDone := make(chan struct{})
 	sch.spawn("main", func(yield func(string)) {
+		defer close(mainDone)
 		apply(s, c.Ops)
 		yield("c17.work.done")
 		closeErr = s.Close()
@@ -511,6 +513,15 @@ func runClose(c CloseCase) (st closeStats, v *Violation) {
 	sch.run(pol, 20000)
 	st.inProgress = pol.held
 	sch.release()
+	// The scheduler gives up on a task that stays silent for long (a loaded
+	// machine): join the foreground task before looking at its results or at
+	// the descriptor table, which its own directory reads would show up in.
+	select {
+	case <-mainDone:
+	case <-time.After(2 * time.Minute):
+		sch.uninstall()
+		return st, viol("close-does-not-return||", 0, "Close (or the census after it) has not returned 2 minutes after every held goroutine was released; trace: %v", sch.trace)
+	}
 	// After everything that was held has been let go, the directory must
 	// still not change, and nothing may be left.
 	time.Sleep(5 * time.Millisecond)
